@@ -112,8 +112,6 @@ func (si *stmtInliner) inlineAt(file *ast.File, call *ast.CallExpr, fn *types.Fu
 			if x.Tok == token.GOTO {
 				bad = "goto"
 			}
-		case *ast.LabeledStmt:
-			bad = "label"
 		case *ast.CallExpr:
 			if id, ok := x.Fun.(*ast.Ident); ok && id.Name == "recover" {
 				bad = "recover"
@@ -220,6 +218,21 @@ func (si *stmtInliner) inlineAt(file *ast.File, call *ast.CallExpr, fn *types.Fu
 		}
 	}
 	if c.kind == "" {
+		// the call is an operand deeper inside the statement: when it is the first thing the statement evaluates (everything
+		// evaluated before it is a plain name or literal), `tmp := f(…)` in front of the statement is the same program, and
+		// the next round inlines that
+		if sig.Results().Len() == 1 && hoistable(stmt, call) {
+			*si.seq++
+			tmp := fmt.Sprintf("t_h%d", *si.seq)
+			src := si.content(si.fset.Position(file.Pos()).Filename)
+			o := func(p token.Pos) int { return si.fset.Position(p).Offset }
+			out := append([]byte{}, src[:o(stmt.Pos())]...)
+			out = append(out, (tmp + " := " + string(src[o(call.Pos()):o(call.End())]) + "\n")...)
+			out = append(out, src[o(stmt.Pos()):o(call.Pos())]...)
+			out = append(out, tmp...)
+			out = append(out, src[o(call.End()):]...)
+			return out, nil
+		}
 		return nil, fmt.Errorf("call context not supported")
 	}
 	if c.kind == "cond" && (sig.Results().Len() != 1) {
@@ -258,9 +271,22 @@ func (si *stmtInliner) inlineAt(file *ast.File, call *ast.CallExpr, fn *types.Fu
 	callerName := si.fset.Position(file.Pos()).Filename
 	calleeName := si.fset.Position(decl.Pos()).Filename
 	callerSrc, calleeSrc := si.content(callerName), si.content(calleeName)
+	// the name under which the caller's file imports a package (an import may be renamed: bsi "…/BitSliceIndexing")
+	importName := map[string]string{}
+	for _, im := range file.Imports {
+		ip := strings.Trim(im.Path.Value, "\"")
+		if im.Name != nil {
+			importName[ip] = im.Name.Name
+		} else if pn := si.info.Implicits[im]; pn != nil {
+			importName[ip] = pn.Name()
+		}
+	}
 	qual := func(p *types.Package) string {
 		if p == si.pkg {
 			return ""
+		}
+		if n, ok := importName[p.Path()]; ok && n != "_" && n != "." {
+			return n
 		}
 		return p.Name()
 	}
@@ -278,9 +304,9 @@ func (si *stmtInliner) inlineAt(file *ast.File, call *ast.CallExpr, fn *types.Fu
 	typeMention = func(t types.Type) {
 		tstr(t, func(p *types.Package) string {
 			if p != si.pkg {
-				needed[p.Name()] = p.Path()
+				needed[qual(p)] = p.Path()
 			}
-			return p.Name()
+			return qual(p)
 		})
 	}
 	for _, v := range paramVars {
@@ -330,6 +356,10 @@ func (si *stmtInliner) inlineAt(file *ast.File, call *ast.CallExpr, fn *types.Fu
 					declared[obj] = true
 				}
 				if _, isTN := obj.(*types.TypeName); isTN && obj.Parent() != si.pkg.Scope() {
+					declared[obj] = true
+				}
+				// labels (of loops written by hand or left by an earlier inlining) are renamed with everything else
+				if _, isLabel := obj.(*types.Label); isLabel {
 					declared[obj] = true
 				}
 			}
@@ -571,7 +601,7 @@ func (si *stmtInliner) inlineAt(file *ast.File, call *ast.CallExpr, fn *types.Fu
 	if len(addImports) > 0 {
 		// after the package clause
 		pe := off(file.Name.End())
-		out = append(append(append([]byte{}, out[:pe]...), ("\n\n" + strings.Join(addImports, "\n") + "\n")...), out[pe:]...)
+		out = append(append(append([]byte{}, out[:pe]...), ("\n\n"+strings.Join(addImports, "\n")+"\n")...), out[pe:]...)
 	}
 	return out, nil
 }
@@ -637,4 +667,178 @@ func pathTo(file *ast.File, target ast.Node) []ast.Node {
 		return true
 	})
 	return out
+}
+
+// hoistable: call is evaluated before anything else in stmt that could have an effect, and exactly once when stmt runs.
+func hoistable(stmt ast.Stmt, call *ast.CallExpr) bool {
+	var roots []ast.Expr // operand expressions of the statement in evaluation order
+	switch x := stmt.(type) {
+	case *ast.ExprStmt:
+		roots = []ast.Expr{x.X}
+	case *ast.AssignStmt:
+		// index / selector operands on the left are evaluated first: only plain targets
+		for _, l := range x.Lhs {
+			if !plainLvalue(l) {
+				return false
+			}
+		}
+		roots = x.Rhs
+	case *ast.ReturnStmt:
+		roots = x.Results
+	case *ast.SendStmt:
+		if !pureOperand(x.Chan) {
+			return false
+		}
+		roots = []ast.Expr{x.Value}
+	case *ast.IfStmt:
+		if x.Init != nil {
+			if as, ok := x.Init.(*ast.AssignStmt); ok && containsNode(as, call) {
+				return hoistable(as, call)
+			}
+			return false
+		}
+		roots = []ast.Expr{x.Cond}
+	case *ast.RangeStmt:
+		roots = []ast.Expr{x.X}
+	case *ast.DeclStmt:
+		gd, ok := x.Decl.(*ast.GenDecl)
+		if !ok || gd.Tok != token.VAR || len(gd.Specs) != 1 {
+			return false
+		}
+		roots = gd.Specs[0].(*ast.ValueSpec).Values
+	default:
+		return false
+	}
+	// walk the operands in evaluation order until the call is reached
+	found := false
+	var first func(e ast.Expr) bool // false: something impure comes before the call
+	first = func(e ast.Expr) bool {
+		if found {
+			return true
+		}
+		if e == nil {
+			return true
+		}
+		if ast.Expr(call) == e {
+			found = true
+			return true
+		}
+		if !containsNode(e, call) {
+			return pureOperand(e)
+		}
+		switch x := e.(type) {
+		case *ast.ParenExpr:
+			return first(x.X)
+		case *ast.CallExpr:
+			// the function operand (receiver chain) first, then the arguments left to right
+			if !first(x.Fun) {
+				return false
+			}
+			for _, a := range x.Args {
+				if !first(a) {
+					return false
+				}
+				if found {
+					return true
+				}
+			}
+			return true
+		case *ast.SelectorExpr:
+			return first(x.X)
+		case *ast.StarExpr:
+			return first(x.X)
+		case *ast.UnaryExpr:
+			if x.Op == token.ARROW {
+				return false
+			}
+			return first(x.X)
+		case *ast.BinaryExpr:
+			if x.Op == token.LAND || x.Op == token.LOR {
+				// only the left operand is evaluated unconditionally
+				if containsNode(x.Y, call) {
+					return false
+				}
+				return first(x.X)
+			}
+			if !first(x.X) {
+				return false
+			}
+			if found {
+				return true
+			}
+			return first(x.Y)
+		case *ast.IndexExpr:
+			if !first(x.X) {
+				return false
+			}
+			if found {
+				return true
+			}
+			return first(x.Index)
+		case *ast.SliceExpr:
+			if containsNode(x.X, call) {
+				return first(x.X)
+			}
+			return false
+		case *ast.TypeAssertExpr:
+			return first(x.X)
+		case *ast.CompositeLit:
+			for _, el := range x.Elts {
+				v := el
+				if kv, ok := el.(*ast.KeyValueExpr); ok {
+					if !pureOperand(kv.Key) {
+						return false
+					}
+					v = kv.Value
+				}
+				if !first(v) {
+					return false
+				}
+				if found {
+					return true
+				}
+			}
+			return true
+		case *ast.FuncLit:
+			return false // evaluated later, possibly many times
+		}
+		return false
+	}
+	for _, r := range roots {
+		if !first(r) {
+			return false
+		}
+		if found {
+			return true
+		}
+	}
+	return false
+}
+
+// pureOperand: evaluating e has no effect and cannot fail: names, literals, field selections of names, conversions and
+// len / cap of those.
+func pureOperand(e ast.Expr) bool {
+	switch x := e.(type) {
+	case nil:
+		return true
+	case *ast.Ident, *ast.BasicLit:
+		return true
+	case *ast.ParenExpr:
+		return pureOperand(x.X)
+	case *ast.SelectorExpr:
+		return pureOperand(x.X)
+	case *ast.UnaryExpr:
+		return (x.Op == token.SUB || x.Op == token.NOT || x.Op == token.ADD) && pureOperand(x.X)
+	case *ast.BinaryExpr:
+		if x.Op == token.QUO || x.Op == token.REM {
+			return false
+		}
+		return pureOperand(x.X) && pureOperand(x.Y)
+	case *ast.CallExpr:
+		if id, ok := x.Fun.(*ast.Ident); ok && (id.Name == "len" || id.Name == "cap") && len(x.Args) == 1 {
+			return pureOperand(x.Args[0])
+		}
+		return false
+	}
+	return false
 }
